@@ -132,6 +132,8 @@ class World:
         self.ncalls = {}
         self.probe_err = probe_err            # every follow-up probe of the error path (is_zombie / pid_exists / pids) fails with it
         self.probe_raised = []
+        self.kname = None                     # kernel process name handed out by the native layer (None: the sentinel)
+        self.cmd0 = None                      # first element of the native command line (None: the sentinel)
         self.rowalt = dict(rowalt or {})
         self.rowset = dict(rowset or {})      # {fn: {slot: value}} explicit values in a row-native's row
         self.records = records or {}
@@ -254,6 +256,8 @@ class Layer:
                 vals = list(w.records.get(fname) or [BASE[fname] + i for i in range(n)])
                 if st is not None and (fname not in w.records or w.state == "zombie" or w.state.startswith("code:")):
                     vals[st] = self.const(w.status_code())
+                if w.kname is not None and fname in ("proc_oneshot_info", "proc_kinfo_oneshot"):
+                    vals[-1] = w.kname            # the name slot is the last one of both records
                 return tuple(vals)
         raise KeyError(fname)
 
@@ -286,6 +290,14 @@ class Layer:
         }
         base, alt = rows[fname]
         base = list(base)
+        w = self.world
+        if fname in ("proc_cmdline", "proc_args") and w.cmd0 is not None:
+            base[0] = w.cmd0
+        if fname == "proc_name_and_args":
+            if w.kname is not None:
+                base[0] = w.kname
+            if w.cmd0 is not None:
+                base[1] = w.cmd0 + " --flag"
         i = self.world.rowalt.get(fname)
         if i is not None:
             base[i] = alt[i]
@@ -349,7 +361,7 @@ class Layer:
             f["net_connections"] = lambda *a: [tuple(L.row("net_connections"))]
             f["proc_memory_maps"] = lambda *a: [tuple(L.row("proc_memory_maps"))]
         elif p == "aix":
-            f["proc_name"] = lambda *a: "nativename\0\0"
+            f["proc_name"] = lambda *a: (L.world.kname if L.world.kname is not None else "nativename") + "\0\0"
             f["proc_args"] = lambda *a: L.row("proc_args")
             f["net_connections"] = lambda *a: [tuple(L.row("net_connections"))]
         elif p == "windows":
@@ -494,7 +506,11 @@ class Layer:
                         delattr(psutil, a)
                 else:
                     setattr(psutil, a, v)
-        # world probes made by the ladders are answered truthfully
+        self._patch_module(mod)
+        return mod
+
+    def _patch_module(self, mod):
+        """Shims put into a loaded platform module: world probes made by the ladders are answered truthfully."""
         L = self
 
         def suspended(fn):
@@ -528,7 +544,6 @@ class Layer:
                 def glob(self, pat, **k):
                     return ["/dev/pts/0"]
             mod.glob = GlobShim()
-        return mod
 
     # ------------------------------------------------------------ driving
     def methods(self):
@@ -625,4 +640,14 @@ def load_frontend(plat, impl_dir, workdir):
         _os.name, sys.platform = saved
         sys.path.remove(workdir)
     layer.mod = pkg
+    # the same shims as for a directly loaded platform module (no real os.kill / readlink / listdir behind the front end)
+    if plat != "windows":
+        class TtyMap:
+            def __getitem__(self, k):
+                if k == NOTTY:
+                    raise KeyError(k)
+                return "/dev/tty%d" % k
+        pkg._psposix.os = layer._os_shim()
+        pkg._psposix.get_terminal_map = lambda: TtyMap()
+    layer._patch_module(pkg._psplatform)
     return layer
